@@ -305,12 +305,54 @@ class C09(Check):
                     break
                 tp = kws["time_points"]
             tp_ok = tp in params or tp.startswith("np.array([0.0]") or any(isinstance(s, ast.Assign) and norm(s.targets[0]) == tp for s in f.body)
+            if ok and "protocol" in params:
+                self.p4_grid(f, tp, params)
             if ok and tp_ok:
                 self.holds("P4", SCAN, f.name, "nan-default", rets[0], f"every exit is res.default(NaN Simulation over {tp})")
             else:
                 self.violated("P4", SCAN, f.name, "nan-default", rets[0] if rets else f,
                               "the worker can return / raise without the NaN placeholder: a failing row aborts the scan or shifts positions",
                               witness="one row whose integration fails makes scan.* raise instead of yielding NaN at that row")
+
+    def p4_grid(self, f, tp: str, params) -> None:
+        """Protocol workers: the placeholder's time grid has the extent of a successful run."""
+        from ..core import expand_locals, single_defs
+        from ..lengths import Lengths
+
+        defs = single_defs(f, anywhere=True)
+        expr = defs.get(tp) if tp in defs else (ast.parse(tp, mode="eval").body if tp not in params else None)
+        cons = "placeholder-grid"
+        if "time_points_per_step" in params:
+            # simulate_protocol: every step contributes `time_points_per_step` rows (the duplicated boundary row is dropped for
+            # continuing calls, C04 T3) and the first one its start row: n * s + 1 rows
+            import sympy
+
+            n, s_ = sympy.symbols("n s", positive=True, integer=True)
+            if expr is None:
+                self.violated("P4", SCAN, f.name, cons, f, f"the placeholder uses the caller's `{tp}` as its time grid, a successful protocol run has len(protocol) * time_points_per_step + 1 rows")
+                return
+            try:
+                got = Lengths({"protocol": n, "protocol.index": n}, {"time_points_per_step": s_, "len(protocol)": n}, {k: v for k, v in defs.items() if k not in params}).length(expr)
+            except AnalysisError as e:
+                self.undecided_ob("P4", SCAN, f.name, cons, expr, f"number of placeholder time points not derivable: {e}")
+                return
+            if sympy.simplify(got - (n * s_ + 1)) == 0:
+                self.holds("P4", SCAN, f.name, cons, expr, "the placeholder has len(protocol) * time_points_per_step + 1 time points, like a successful run")
+            else:
+                self.violated("P4", SCAN, f.name, cons, expr, f"the placeholder has {got} time points (n = len(protocol), s = time_points_per_step), a successful run has n*s + 1: "
+                              "the NaN row does not line up with the other rows of the scan",
+                              witness="findings/C09-protocol-placeholder-shape.py: 9 time points for the successful row, 8 (other values) for the failed one")
+        else:
+            # simulate_protocol_time_course returns the start, the requested points inside the protocol and the step boundaries:
+            # a placeholder grid that does not depend on the protocol cannot contain the boundaries
+            full = expand_locals(expr, {k: v for k, v in defs.items() if k not in params}, depth=5) if expr is not None else None
+            names = {x.id for x in ast.walk(full) if isinstance(x, ast.Name)} if full is not None else {tp}
+            if "protocol" in names and "time_points" in names:
+                self.holds("P4", SCAN, f.name, cons, expr or f, "the placeholder grid is computed from the requested points and the protocol's step ends")
+            else:
+                self.violated("P4", SCAN, f.name, cons, expr or f, f"the placeholder grid `{tp}` does not depend on {sorted({'protocol', 'time_points'} - names)}: a successful run also returns the start "
+                              "and every step boundary, so the NaN row has other time points than the rows next to it",
+                              witness="protocol [(1, ..), (2, ..)], time_points [0.5, 1.5, 2.5]: successful row at [0, 0.5, 1, 1.5, 2.5, 3], failed row at [0.5, 1.5, 2.5]")
 
     def must_fire(self):
         W = "_update_parameters_and_initial_conditions"
